@@ -36,7 +36,10 @@ func concMain(args []string) {
 		`($f := function($n){$n <= 0 ? 0 : 1 + $f($n - 1)}; $f(400))`,
 		`($f := function($n, $acc){$n <= 0 ? $acc : $f($n - 1, $acc + $n)}; $f(150, 0))`,
 		`$reduce([1..200], function($a, $b){$a + $b})`, `$count($map([1..100], function($v){$string($v)}))`,
-		`$sum($map([1..200], function($v){$length($string($v))}))`}
+		`$sum($map([1..200], function($v){$length($string($v))}))`,
+		// built-ins that return a new array or object made from members of the input
+		`$append(c, [k, id])`, `$append(n, s)`, `$count($append(c, n))`, `$reverse(n)`, `$sort(n)`, `n^($)`, `c^(>$string($))`, `$distinct($append(n, n))`, `$zip(c, n)`,
+		`$merge([b, {"k": k}])`, `$shuffle(n) ~> $sort`, `$ ~> |b|{"k": $$.k}|`, `$map(n, function($v){$v * k})`, `$filter(n, function($v){$v > k})`, `$join(c.$string(), s)`}
 	var progs []string
 	for i := 0; i < *nprog; i++ {
 		if i < len(fixed) {
@@ -62,6 +65,9 @@ func concMain(args []string) {
 	var mu sync.Mutex
 	seen := map[string]bool{}
 	var recs []rec
+	var sharedDoc interface{}
+	json.Unmarshal([]byte(`{"a": "shzqsh", "b": {"c": "shyzw"}, "c": [7, 8, "sh"], "k": 7, "id": 7, "s": "sh", "flag": true, "n": [5, 3, 4, 1, 2]}`), &sharedDoc)
+	sharedProj, _ := project(sharedDoc)
 	var wg sync.WaitGroup
 	stop := time.Now().Add(*dur)
 	evals := make([]int, *ng)
@@ -71,8 +77,10 @@ func concMain(args []string) {
 			defer wg.Done()
 			lr := rand.New(rand.NewSource(*seed*1000 + int64(gi)))
 			tag := fmt.Sprintf("g%d", gi)
-			doc := map[string]interface{}{"a": tag + "zq" + tag, "b": map[string]interface{}{"c": tag + "yzw"}, "c": []interface{}{float64(gi), float64(gi + 1), tag},
-				"k": float64(gi), "id": float64(gi), "s": tag, "flag": gi%2 == 0}
+			// documents are decoded from JSON text, as a caller's would be (decoded arrays have spare capacity)
+			var doc interface{}
+			json.Unmarshal([]byte(fmt.Sprintf(`{"a": "%szq%s", "b": {"c": "%syzw"}, "c": [%d, %d, "%s"], "k": %d, "id": %d, "s": "%s", "flag": %v, "n": [5, 3, 4, 1, 2]}`,
+				tag, tag, tag, gi, gi+1, tag, gi, gi, tag, gi%2 == 0)), &doc)
 			pd, _ := project(doc)
 			own := make([]*jsonata.Expr, len(progs))
 			for time.Now().Before(stop) {
@@ -93,13 +101,18 @@ func concMain(args []string) {
 				if e == nil {
 					continue
 				}
-				o := safeEval(e, doc)
+				// every third evaluation reads one document that all goroutines share (inputs are read-only by C07)
+				d, dp, dtag := doc, pd, tag
+				if lr.Intn(3) == 0 {
+					d, dp, dtag = sharedDoc, sharedProj, "shared"
+				}
+				o := safeEval(e, d)
 				evals[gi]++
-				key := tag + "|" + progs[i] + "|" + canon(o)
+				key := dtag + "|" + progs[i] + "|" + canon(o)
 				mu.Lock()
 				if !seen[key] {
 					seen[key] = true
-					recs = append(recs, rec{progs[i], pd, o, astOf(verifNode(e))})
+					recs = append(recs, rec{progs[i], dp, o, astOf(verifNode(e))})
 				}
 				mu.Unlock()
 			}
